@@ -127,6 +127,36 @@ func TestVerifC09(t *testing.T) {
 		}
 		CounterTime = saved
 	}
+	// (a3) the rotation timer: a process that opens its file d before the recorded end arms its timer for the
+	// end, not later, whatever d is (increments made after the end must land in the next span's file).
+	if p.Mine(2) {
+		os.WriteFile(wfile, []byte("3\n"), 0o666)
+		day := time.Date(2024, 2, 26, 0, 0, 0, 0, time.UTC)
+		_, end := ref.WeekSpan(day, time.Weekday(3))
+		savedTimers := vtime.NoTimers
+		vtime.NoTimers = true
+		for _, before := range []time.Duration{6 * 24 * time.Hour, time.Hour, 61 * time.Second, 60 * time.Second, 59 * time.Second, time.Second, time.Millisecond, 1} {
+			w.now = end.Add(-before)
+			vtime.NowHook = func() time.Time { return w.now }
+			vtime.Delays = nil
+			f := &file{buildInfo: zzvBuildInfo()}
+			f.rotate()
+			vtime.NowHook = nil
+			res.Evaluations++
+			if m := f.current.Load(); m != nil {
+				name := m.f.Name()
+				m.close()
+				os.Remove(name)
+			}
+			if len(vtime.Delays) != 1 {
+				res.Violate("rotation-timer-count", fmt.Sprintf("opening %v before the end arms %d timers", before, len(vtime.Delays)), nil)
+			} else if d := vtime.Delays[0]; d > before || d <= 0 {
+				res.Violate("rotation-timer-after-end", fmt.Sprintf("a process that opens its counter file %v before the recorded end arms its rotation timer for %v: until it fires, increments made after the end still land in the old file", before, d), nil)
+			}
+			res.Class("rotation-timer")
+		}
+		vtime.NoTimers = savedTimers
+	}
 	// (b) malformed settings.
 	if p.Mine(0) {
 		for _, setting := range []string{"<absent>", "", "7", "9", "x", "-1", "3\n", " 3", "3 ", "33", "\n", "3\n4\n", "６", "0x3"} {
